@@ -160,13 +160,39 @@ def cli_inproc(argv, logfile=None):
         logging.disable(logging.NOTSET)
 
 
+_subs = [0]
+optimized_runs = [0]
+
+
 def cli_sub(argv, cwd, guard=False, timeout=300, env_extra=None, hashseed="0"):
-    """R3: real CLI in a fresh interpreter, guard OFF by default. returns (rc, stderr tail)"""
+    """R3: real CLI in a fresh interpreter, guard OFF by default. returns (rc, stderr tail).
+    Every second invocation runs the interpreter with -O (assert statements compiled out): the tool's results must not
+    rest on the side effects or the protection of an assert"""
     env = core.worker_env(guard=guard, hashseed=hashseed, extra=env_extra)
     env["PYTHONPATH"] = core.REPO
-    p = subprocess.run([core.PY, "-B", "-m", "suit_generator.cli"] + [str(a) for a in argv], cwd=cwd, env=env,
+    _subs[0] += 1
+    flags = ["-B"]
+    if random.Random(f"optimize/{_subs[0]}").random() < 0.5:
+        flags.append("-O")
+        optimized_runs[0] += 1
+    p = subprocess.run([core.PY] + flags + ["-m", "suit_generator.cli"] + [str(a) for a in argv], cwd=cwd, env=env,
                        capture_output=True, timeout=timeout)
     return p.returncode, p.stderr.decode("utf-8", "replace")[-1500:]
+
+
+@contextlib.contextmanager
+def as_pipe(data):
+    """hostile delivery of an input: not a regular file but the read end of a pipe (`/dev/fd/N`, what `<(...)` or
+    `/dev/stdin` give a tool): it can be read exactly once and its stat size says nothing.  data <= 64 KiB."""
+    assert len(data) <= 60000
+    rfd, wfd = os.pipe()
+    try:
+        os.write(wfd, data)
+        os.close(wfd)
+        yield f"/dev/fd/{rfd}"
+    finally:
+        with contextlib.suppress(OSError):
+            os.close(rfd)
 
 
 def script_sub(script, argv, cwd, guard=False, timeout=300):
@@ -178,14 +204,58 @@ def script_sub(script, argv, cwd, guard=False, timeout=300):
 
 
 # ---- create ----------------------------------------------------------------------------------------
+DECOY = b"DECOY FILE: nothing in the description refers to a file of this name\n"
+decoys_placed = [0]
+_c = [0]
+
+
+def _payload_strings(x, out):
+    if isinstance(x, dict):
+        for k, v in x.items():
+            if k in ("suit-integrated-payloads", "suit-integrated-dependencies") and isinstance(v, dict):
+                for name, val in v.items():
+                    out.add(name)
+                    if isinstance(val, str):
+                        out.add(val)
+            _payload_strings(v, out)
+    elif isinstance(x, list):
+        for v in x:
+            _payload_strings(v, out)
+
+
+def place_decoys(desc):
+    """hostile working directory: files named exactly like the literal strings of the description that a tool might be
+    tempted to look up (hex payload literals, payload names). -> list of created paths"""
+    names = set()
+    _payload_strings(desc, names)
+    made = []
+    for s in sorted(names):
+        if not (0 < len(s.encode("utf-8", "replace")) <= 120) or "/" in s or "\0" in s or s in (".", ".."):
+            continue
+        try:
+            if not os.path.lexists(s):
+                with open(s, "wb") as fh:
+                    fh.write(DECOY)
+                made.append(s)
+        except (OSError, ValueError):
+            pass
+    decoys_placed[0] += len(made)
+    return made
+
+
 def create(desc, workdir, route="lib", fmt="json"):
     """description object -> envelope bytes through the chosen route"""
     src = fresh(workdir, "." + fmt)
     dst = fresh_out(workdir, ".suit")
     write_desc(src, desc, fmt)
+    _c[0] += 1
+    decoys = place_decoys(desc) if random.Random(f"decoy/{_c[0]}").random() < 0.3 else []
     try:
         return create_file(src, dst, route, fmt)
     finally:
+        for d in decoys:
+            with contextlib.suppress(OSError):
+                _real_unlink(d)
         for p in (src, dst):
             with contextlib.suppress(OSError):
                 os.unlink(p)
